@@ -1079,6 +1079,36 @@ def K18_dimension_formula(rep, flow: Flow):
         calls = [c for c in ast.walk(v) if isinstance(c, ast.Call) and isinstance(c.func, ast.Attribute)]
         if any(c.func.attr in ("trace", "diagonal", "diag") for c in calls):
             continue        # reported by K17b
+        # the other textbook form: the number of non-zero rows of the reduced matrix - count_nonzero / sum over any(axis=1)
+        mat_names = set()
+        for a in ast.walk(f.node):
+            if isinstance(a, ast.Assign) and isinstance(a.targets[0], ast.Tuple) and len(a.targets[0].elts) == 2 and isinstance(a.value, ast.Call) and ast.unparse(a.value.func).split(".")[-1] == "rref" \
+                    and isinstance(a.targets[0].elts[0], ast.Name):
+                mat_names.add(a.targets[0].elts[0].id)
+        def is_reduced(e):
+            if isinstance(e, ast.Name) and e.id in mat_names:
+                return True
+            return isinstance(e, ast.Subscript) and isinstance(e.slice, ast.Constant) and e.slice.value == 0 and isinstance(e.value, ast.Call) and ast.unparse(e.value.func).split(".")[-1] == "rref"
+        def row_any(e):
+            if not isinstance(e, ast.Call):
+                return False
+            ax = [k.value for k in e.keywords if k.arg == "axis"]
+            if isinstance(e.func, ast.Attribute) and e.func.attr == "any" and is_reduced(e.func.value):
+                ax = ax or list(e.args[:1])
+            elif ast.unparse(e.func) in ("np.any", "numpy.any") and e.args and is_reduced(e.args[0]):
+                ax = ax or list(e.args[1:2])
+            else:
+                return False
+            return len(ax) == 1 and isinstance(ax[0], ast.Constant) and ax[0].value in (1, -1)
+        def counts_rows(e):
+            if isinstance(e, ast.Call) and ast.unparse(e.func) in ("np.count_nonzero", "numpy.count_nonzero", "np.sum", "numpy.sum", "sum") and len(e.args) == 1 and not e.keywords:
+                return row_any(e.args[0])
+            if isinstance(e, ast.Call) and isinstance(e.func, ast.Attribute) and e.func.attr == "sum" and not e.args and not e.keywords:
+                return row_any(e.func.value)
+            return False
+        if counts_rows(v):
+            rep.ok("K18", 1, nontrivial=("rank", "non-zero rows"), sample=f"rank: {pyfacts.norm_stmt(r)} (number of non-zero rows of the reduced matrix)")
+            continue
         if any(c.func.attr in ("argmin", "argmax") for c in calls):
             rep.finding("K18", "rank:argext", f"{pyfacts.where(f, r)}: the rank is an argmin / argmax over a row test of the reduced matrix [{pyfacts.norm_stmt(r)}]: 'position of the first row without / with the feature' is 0 when NO row has it, so a matrix whose reduced form has no zero row (full row rank, e.g. the identity) gets rank 0")
             continue
@@ -1102,6 +1132,18 @@ def K18_dimension_formula(rep, flow: Flow):
         empty = isinstance(v, ast.Call) and ast.unparse(v.func) in ("np.zeros", "np.empty") and v.args and isinstance(v.args[0], (ast.Tuple, ast.List)) and len(v.args[0].elts) == 2 \
             and isinstance(v.args[0].elts[0], ast.Constant) and v.args[0].elts[0].value == 0
         names = {x.id for x in ast.walk(st.test) if isinstance(x, ast.Name)} - {"len", "np"}
+        whole = isinstance(v, ast.Call) and ast.unparse(v.func) in ("np.eye", "np.identity") and v.args and isinstance(v.args[0], ast.Name) and v.args[0].id == cols
+        if whole and piv is not None and cols is not None and names <= {piv, cols}:
+            try:
+                tb = {npiv: bool(ce.truth(ce.ev(st.test, {piv: list(range(npiv)), cols: 3}, g))) for npiv in (0, 1, 3)}
+            except (CERaise, AnalysisError) as ex:
+                raise AnalysisError(f"{pyfacts.where(g, st)}: guard `{ast.unparse(st.test)}` of the early return cannot be evaluated ({str(ex)[:80]})")
+            badw = [k for k in (1, 3) if tb[k]]
+            if badw:
+                rep.finding("K18", f"kernel:early-whole:{badw[0]}", f"{pyfacts.where(g, st)}: the whole space (identity basis) is returned when `{ast.unparse(st.test)}`, which holds for {badw[0]} pivot column(s) out of 3: the kernel then has dimension {3 - badw[0]}, not 3")
+            else:
+                rep.ok("K18", 1, nontrivial=("kernel", ast.unparse(st.test)), sample=f"null_space: the whole space only when `{ast.unparse(st.test)}` (no pivot column)")
+            continue
         if not empty or piv is None or cols is None or not names <= {piv, cols}:
             raise AnalysisError(f"{pyfacts.where(g, st)}: the kernel routine returns early under `{ast.unparse(st.test)}`: neither an empty basis under a condition on the pivot list alone nor anything else K18 can decide (no verdict)")
         table = {}
